@@ -177,6 +177,7 @@ func userFunctionCallRuleSSA(r *Run) {
 	}
 	// the argument list itself, or a prefix of it (args[:n] keeps the positions)
 	isArgs := func(v ssa.Value) bool {
+		v = crossNormIn(v, fn) // (the parameter of a helper that evaluates a list of expressions is what it was handed)
 		if v == argsP {
 			return true
 		}
